@@ -290,13 +290,13 @@ def check_combinators(fx, rep, rule):
 
 
 # ---- grammar skeletons (C05.2/3, C05.5 threading, C06.3 line-bounded scans) -----------------------------------------------
-def unfold_chain(rest):
-    """walk a rest-cursor term back to ("in", "bytes"): list of consuming steps, outermost last.
+def unfold_chain(rest, cursor0=("in", "bytes")):
+    """walk a rest-cursor term back to the cursor parameter: list of consuming steps, outermost last.
     step = (kind, call term, extra)"""
     steps = []
     t = rest
     while True:
-        if t == ("in", "bytes"):
+        if t == cursor0:
             break
         if t[0] == "call" and t[1] == rp("consume_leading_newlines"):
             steps.append(("skipnl", t, None))
@@ -324,6 +324,8 @@ def unfold_chain(rest):
 def lit_bytes(t):
     if t[0] == "lit" and t[1] == "bytes":
         return t[2]
+    if t[0] == "call" and t[1] in ("std::array::as_slice", "core::array::as_slice") and len(t[2]) == 1:
+        return lit_bytes(t[2][0])       # `PREFIX.as_slice()` of a byte-array constant
     if t[0] == "const" and t[2]:
         import ast
         try:
@@ -339,6 +341,11 @@ def skeletons(fx, rep, rule, name, sy, res):
     """for every Ok path: (events, record term, positions). events include failed optional attempts."""
     out = []
     problems = []
+    # the cursor parameter (first parameter of the parser in this role), whatever it is called
+    cursor0 = ("in", "bytes")
+    pb_ = fx.bodies.get(rp({"member": "parse_proguard_field_or_method", "header": "parse_proguard_header", "class": "parse_proguard_class"}.get(name, "-")))
+    if pb_ and pb_.get("params") and (pb_["params"][0].get("pat") or {}).get("k") == "Bind":
+        cursor0 = ("in", pb_["params"][0]["pat"]["name"])
 
     def as_prefix_step(t):
         """`cur.strip_prefix(LIT)` used directly is the literal combinator without its error value (`parse_prefix` is checked to be
@@ -350,11 +357,43 @@ def skeletons(fx, rep, rule, name, sy, res):
         if t[0] == "is" and t[2] == "Some" and t[1][0] == "call" and t[1][1] == rp("parse_prefix"):
             return ("is", t[1], "Ok")
         return None
+    # `match cur.split_first() { Some((b':', rest)) => <with rest>, _ => <at cur> }`: the one-byte literal step, spelled with a slice
+    # pattern. Both conditions together are `parse_prefix(cur, b":") is Ok`; either one failing is its failure.
+    first_byte = {}
+    for st, (k, v) in res:
+        for a, pol in st.conds:
+            if a[0] == "eq" and a[2][0] == "lit" and a[2][1] == "int" and a[1][0] == "field" and a[1][2] == "0" and a[1][1][0] == "payload" \
+                    and a[1][1][2] == "Some" and a[1][1][1][0] == "call" and a[1][1][1][1] == "core::slice::split_first" and 0 <= a[2][2] < 256:
+                first_byte.setdefault(a[1][1][1], set()).add(a[2][2])
+    first_byte = {sf: list(cs)[0] for sf, cs in first_byte.items() if len(cs) == 1}
+
+    def pp_of(sf):
+        return ("call", rp("parse_prefix"), (sf[2][0], ("lit", "bytes", bytes([first_byte[sf]]))))
+
+    def as_first_byte_step(t):
+        if t[0] == "field" and t[2] == "1" and t[1][0] == "payload" and t[1][2] == "Some" and t[1][1] in first_byte:
+            return ("payload", pp_of(t[1][1]), "Ok", "0")
+        return None
     res2 = []
     for st, (k, v) in res:
         st = st.copy()
-        st.conds = tuple((fc.rewrite(a, as_prefix_step), pol) for a, pol in st.conds)
-        res2.append((st, (k, fc.rewrite(v, as_prefix_step))))
+        conds = []
+        a_ = {a: pol for a, pol in st.conds}
+        for a, pol in st.conds:
+            if a[0] == "is" and a[2] == "Some" and a[1] in first_byte:
+                sf = a[1]
+                eqa = ("eq", ("field", ("payload", sf, "Some", "0"), "0"), ("lit", "int", first_byte[sf]))
+                if not pol:
+                    conds.append((("is", pp_of(sf), "Ok"), False))
+                    continue
+                if eqa in a_:
+                    conds.append((("is", pp_of(sf), "Ok"), a_[eqa]))
+                    continue
+            elif a[0] == "eq" and a[1][0] == "field" and a[1][1][0] == "payload" and a[1][1][1] in first_byte and a_.get(("is", a[1][1][1], "Some")) is True:
+                continue
+            conds.append((a, pol))
+        st.conds = tuple((fc.rewrite(fc.rewrite(a, as_first_byte_step), as_prefix_step), pol) for a, pol in conds)
+        res2.append((st, (k, fc.rewrite(fc.rewrite(v, as_first_byte_step), as_prefix_step))))
     res = res2
     for st, (k, v) in res:
         if not (v[0] == "adt" and v[2] == "Ok"):
@@ -364,12 +403,12 @@ def skeletons(fx, rep, rule, name, sy, res):
             problems.append("Ok value is not (record, rest)")
             continue
         rec, rest = tup[1]
-        chain = unfold_chain(rest)
+        chain = unfold_chain(rest, cursor0)
         if chain is None:
             problems.append("rest cursor is not derived from the input by combinator results: %s" % S.tstr(rest)[:200])
             continue
         # positions: cursor before each step
-        positions = [("in", "bytes")]
+        positions = [cursor0]
         for kind, c, extra in chain:
             if kind == "skipnl":
                 positions.append(c)
@@ -379,6 +418,9 @@ def skeletons(fx, rep, rule, name, sy, res):
                 positions.append(mk_field(mk_payload(c, "Ok", "0"), "1"))
         chain_calls = [c for kind, c, extra in chain]
         events = []
+        pre_lit = _DISPATCH_PREFIX.get(id(fx), {}).get(rp({"member": "parse_proguard_field_or_method", "header": "parse_proguard_header"}.get(name, "-")))
+        if pre_lit:
+            events.append(("lit", pre_lit))     # consumed by the dispatcher in front of this parser (C05.1 dispatch rule)
         idx_of = {}
         # every combinator call mentioned in the path conditions must use a cursor on the chain
         attempts = {}   # position index -> list of failed attempts
@@ -778,6 +820,7 @@ def all_scans_line_bounded(rep, rule, sks):
 
 
 _DISPATCH_SKIPS = {}
+_DISPATCH_PREFIX = {}     # id(fx) -> {sub-parser path: line-start literal the dispatcher consumed for it}
 
 
 def pair_struct_rw(fx):
@@ -822,13 +865,23 @@ def check_dispatch(fx, rep, rule):
     b0 = ("in", "bytes")
     cur = call(rp("consume_leading_newlines"), b0)
 
-    def ref(o, skip_here=False):
-        if o(("bool", call("core::slice::starts_with", cur, ("lit", "bytes", b"#")))):
-            r = call(parsers["parse_proguard_header"], cur)
-        elif o(("bool", call("core::slice::starts_with", cur, ("lit", "bytes", b"    ")))):
-            r = call(parsers["parse_proguard_field_or_method"], cur)
+    def ref(o, skip_here=False, strip=()):
+        def starts(lit_, who):
+            # the line start is either only looked at (the sub-parser consumes it itself) or consumed here and the sub-parser
+            # gets what follows it (`strip`): then the sub-parser's grammar is judged with that literal in front (skeletons)
+            if who in strip:
+                sp_ = call("core::slice::strip_prefix", cur, ("lit", "bytes", lit_))
+                return (mk_payload(sp_, "Some", "0"),) if o(("is", sp_, "Some")) else None
+            return (cur,) if o(("bool", call("core::slice::starts_with", cur, ("lit", "bytes", lit_)))) else None
+        a_ = starts(b"#", "parse_proguard_header")
+        if a_ is not None:
+            r = call(parsers["parse_proguard_header"], a_[0])
         else:
-            r = call(parsers["parse_proguard_class"], cur)
+            a_ = starts(b"    ", "parse_proguard_field_or_method")
+            if a_ is not None:
+                r = call(parsers["parse_proguard_field_or_method"], a_[0])
+            else:
+                r = call(parsers["parse_proguard_class"], cur)
         if o(("is", r, "Ok")):
             t = mk_payload(r, "Ok", "0")
             rest_ = mk_field(t, "1")
@@ -840,12 +893,18 @@ def check_dispatch(fx, rep, rule):
     oc = (lambda st, out: fc.rewrite(out[1], prw)) if prw else (lambda st, out: out[1])
     bad, n = fc.compare_paths(res, ref, oc)
     _DISPATCH_SKIPS[id(fx)] = False
+    _DISPATCH_PREFIX[id(fx)] = {}
     if bad:
-        # variant: the dispatcher (not each record parser) skips the line terminator and blank lines behind an Ok record
-        bad2, n2 = fc.compare_paths(res, lambda o: ref(o, True), oc)
-        if not bad2:
-            bad = bad2
-            _DISPATCH_SKIPS[id(fx)] = True
+        # variants: the dispatcher (not each record parser) skips the line terminator and blank lines behind an Ok record; the
+        # dispatcher (not the header / member parser) consumes the line-start literal
+        H_, M_ = "parse_proguard_header", "parse_proguard_field_or_method"
+        for skip_, strip_ in ((True, ()), (False, (H_, M_)), (True, (H_, M_)), (False, (H_,)), (True, (H_,)), (False, (M_,)), (True, (M_,))):
+            bad2, n2 = fc.compare_paths(res, lambda o: ref(o, skip_, strip_), oc)
+            if not bad2:
+                bad = bad2
+                _DISPATCH_SKIPS[id(fx)] = skip_
+                _DISPATCH_PREFIX[id(fx)] = {parsers[w_]: {H_: b"#", M_: b"    "}[w_] for w_ in strip_}
+                break
     R1.report_cmp(rep, rule, "%s/dispatch" % rule, fx.bodies[p], res, bad,
                   "skip leading newlines; '#' -> header, four spaces -> member, else class; on Err: ParseError{line = split_line(line start).0}, rest = .1")
 
